@@ -139,11 +139,14 @@ def probe(r, m, n, tag):
     same_state(r, m, n, tag + " probe(mode off)")
 
 
-def step(n, op):
+def step(n, op, blind=False):
+    """blind: no observation of the reader between the prefix and the operation (observing `remaining` may itself
+    repair lazily maintained state, hiding a defect that a caller who does not look would hit)"""
     data = sym_bytes("data", n)
     r = EoReader(data)
     m = ModelReader(data)
-    same_state(r, m, n, "constructor")
+    if not blind:
+        same_state(r, m, n, "constructor")
     ever = sym_bool("ever_chunked")
     if fork(ever):
         r.chunked_reading_mode = True
@@ -155,13 +158,17 @@ def step(n, op):
         r.chunked_reading_mode = False
         m.set_mode(False)
     j = sym_int("j", 0, n)
-    r.get_bytes(j)
-    m.get_bytes(j)
+    if blind:
+        assume(j == 0)
+    else:
+        r.get_bytes(j)
+        m.get_bytes(j)
     mode = sym_bool("mode")
     if fork(mode):
         r.chunked_reading_mode = True
         m.set_mode(True)
-    same_state(r, m, n, "pre-state")
+    if not blind:
+        same_state(r, m, n, "pre-state")
     arg = sym_int("arg", 0, n + 2)
     arg2 = sym_int("arg2", 0, n + 2)
     apply_op(op, r, m, n, op, arg, arg2)
@@ -169,7 +176,7 @@ def step(n, op):
     probe(r, m, n, "post")
 
 
-def history(n, ops):
+def history(n, ops, blind=False):
     data = sym_bytes("data", n)
     r = EoReader(data)
     m = ModelReader(data)
@@ -178,7 +185,8 @@ def history(n, ops):
         arg = sym_int("arg%d" % i, 0, n + 2)
         arg2 = sym_int("argb%d" % i, 0, n + 2)
         apply_op(op, r, m, n, "op%d %s" % (i, op), arg, arg2)
-        same_state(r, m, n, "after op%d" % i)
+        if not blind:
+            same_state(r, m, n, "after op%d" % i)
         i += 1
     probe(r, m, n, "end")
 
